@@ -512,6 +512,15 @@ def _session_faulted(h, f, sid, c):
             return True
     if any(r.lost for r in h.world.requests if r.cidx == c.idx):
         return True
+    # somebody else read this session (a session id is a bearer token):
+    # what they were handed is not in this client's receive log
+    for o in h.clients:
+        if o is c:
+            continue
+        for r in o.raws:
+            if ('sid=' + sid) in r.query and r.method == 'GET' and \
+                    r.status in (200, None):
+                return True
     return False
 
 
@@ -1290,3 +1299,383 @@ def check_heartbeat(h, f=None):
                                                         rec['t_start'])))
                         break
     return out
+
+
+# ===========================================================================
+# C12  request admission        C15  request completion
+# ===========================================================================
+
+import urllib.parse as _up
+
+
+def ref_admission(server, req, snap):
+    """Reference admission: returns (refusals, note).  ``refusals`` is the
+    set of refusal statuses the statement allows for this request; empty
+    means the request must be admitted; None means grey."""
+    q = _up.parse_qs(req.query)
+    transport = q.get('transport', ['polling'])[0]
+    sid = q['sid'][0] if 'sid' in q else None
+    hdr = {k.lower(): v for k, v in req.headers}
+    upg = hdr.get('upgrade', '').lower() or None
+    is_upgrade_req = upg == 'websocket' and 'upgrade' in [
+        x.strip() for x in hdr.get('connection', '').lower().split(',')]
+    ref = set()
+    if transport not in server.transports:
+        ref.add(400)
+    if sid is None and q.get('EIO') != ['4']:
+        ref.add(400)
+    if 'j' in q:
+        j = q['j'][0]
+        if j.lstrip('-').isascii() and j.lstrip('-').isdigit() and \
+                j.count('-') <= 1:
+            pass
+        elif any(ch.isdigit() for ch in j):
+            return None, 'odd jsonp index'
+        else:
+            ref.add(400)
+    m = req.method
+    if m not in ('GET', 'POST', 'OPTIONS'):
+        ref.add(405)
+        return ref, 'method'
+    if m == 'OPTIONS':
+        return ref, 'options'
+    st = snap.get(sid) if sid is not None else None
+    live = st is not None and not st['closed']
+    if sid is not None and st is not None and st['closing'] and \
+            not st['closed']:
+        return None, 'session is closing'
+    if m == 'POST':
+        if sid is None or not live:
+            ref.add(400)
+        return ref, 'post'
+    # GET
+    if sid is None:
+        if transport == 'websocket' and upg != 'websocket':
+            ref.add(400)
+        return ref, 'open'
+    if not live:
+        ref.add(400)
+        return ref, 'read-dead'
+    cur = 'websocket' if st['upgraded'] else 'polling'
+    if st['upgrading']:
+        return None, 'mid-upgrade'
+    if transport != cur and not (transport == 'websocket' and
+                                 is_upgrade_req):
+        ref.add(400)
+    if cur == 'websocket':
+        # a read on an upgraded session: polling reads are refused above;
+        # a further websocket upgrade is C06's business
+        if not ref:
+            return None, 'second upgrade'
+    if cur == 'polling' and is_upgrade_req and not ref and \
+            transport == 'websocket':
+        return ref, 'upgrade'
+    return ref, 'read'
+
+
+def _others_between(h, req):
+    """Did anything besides this request's own refusal happen between its
+    arrival and its completion?  (A refusal fires nothing itself, so any
+    logged event in that window makes before/after comparisons ambiguous;
+    a connect handler run by this very request is judged separately.)"""
+    lo, hi = req.seq_arrive, req.seq_done
+    # (thread switches leave no log entry: anything else that entered the
+    # server on the same tick may be half-way through its work)
+    for r2 in h.world.requests:
+        if r2 is not req and r2.t_arrive is not None and \
+                abs(r2.t_arrive - req.t_arrive) <= EPS:
+            return True
+    for a in h.world.api_calls:
+        if a['t_start'] is not None and \
+                abs(a['t_start'] - req.t_arrive) <= EPS:
+            return True
+    for (sq, t, actor, kind, payload) in h.k.log:
+        if sq <= lo or sq >= hi:
+            continue
+        if kind == 'spawn' and payload.get('thread') == 'W%d' % req.rid:
+            continue
+        return True
+    return False
+
+
+def check_admission(h, f=None):
+    f = f or Facts(h)
+    out = []
+    impl = f.impl
+    server = h.world.server
+    connect_by_rid = {}
+    for e in h.app.events:
+        if e['ev'] == 'connect' and e.get('rid') is not None:
+            connect_by_rid.setdefault(e['rid'], []).append(e)
+    for c in h.clients:
+        for req in c.raws:
+            if req.seq_arrive is None or req.snap_arrive is None:
+                continue
+            if req.path != '/engine.io/':
+                continue
+            if [k for k, v in req.headers if k.lower() == 'origin']:
+                continue
+            ref, note = ref_admission(server, req, req.snap_arrive)
+            if ref is None:
+                continue
+            hd = {k.lower(): v.lower() for k, v in req.headers}
+            if hd.get('upgrade') == 'websocket' and \
+                    'websocket' not in server.transports:
+                continue    # grey: half an upgrade request for a transport
+                #             that is not allowed may be refused or polled
+            tq = _up.parse_qs(req.query).get('sid', [None])[0]
+            if tq is not None and req.snap_done is not None and \
+                    (req.snap_arrive.get(tq) or {}).get('closed') != \
+                    (req.snap_done.get(tq) or {'closed': True}).get(
+                        'closed') and not ref:
+                continue    # the session ended while the request was in
+                #             the server: either answer is right
+            spec = getattr(req, 'raw_spec', {})
+            shape = '%s|%s' % (req.method, note)
+            if req.kind == 'ws':
+                # websocket requests: refusal = handshake refused
+                conn = req.ws
+                if ref and conn.accepted:
+                    out.append(V('admission-status',
+                                 '%s|ws-admitted-should-refuse|%s' % (
+                                     impl, note),
+                                 'websocket request %r with session state '
+                                 '%r must be refused (%s) but the handshake '
+                                 'was accepted' % (
+                                     req.query, _st(req), sorted(ref))))
+                continue
+            if req.status is None:
+                continue        # completion is C15's business
+            if ref:
+                if req.status not in ref:
+                    out.append(V('admission-status',
+                                 '%s|admitted-should-refuse|%s|got=%s' % (
+                                     impl, shape, req.status),
+                                 '%s %r (headers %r), session state %r: the '
+                                 'reference admission refuses with %s, the '
+                                 'server answered %s' % (
+                                     req.method, req.query, req.headers,
+                                     _st(req), sorted(ref), req.status)))
+                    continue
+                # no effect at all
+                if req.rid in connect_by_rid:
+                    out.append(V('refusal-no-effect',
+                                 '%s|refused-request-ran-connect|%s' % (
+                                     impl, shape),
+                                 'refused request %s %r (%s) ran the '
+                                 'connect handler' % (req.method, req.query,
+                                                      req.status)))
+                if req.snap_done is not None and \
+                        not _others_between(h, req):
+                    a, b = req.snap_arrive, req.snap_done
+                    for sid2, st in a.items():
+                        st2 = b.get(sid2)
+                        if st is None:
+                            continue
+                        if st2 is None:
+                            if not st['closed']:
+                                out.append(V(
+                                    'refusal-no-effect',
+                                    '%s|refused-request-removed-session|%s'
+                                    % (impl, shape),
+                                    'refused request %s %r (%s) removed the '
+                                    'live session %s from the table' % (
+                                        req.method, req.query, req.status,
+                                        sid2)))
+                            continue
+                        for key in ('upgraded', 'closed', 'closing',
+                                    'upgrading'):
+                            if st[key] != st2[key]:
+                                out.append(V(
+                                    'refusal-no-effect',
+                                    '%s|refused-request-changed-%s|%s' % (
+                                        impl, key, shape),
+                                    'refused request %s %r (%s) changed '
+                                    '%s of session %s from %r to %r' % (
+                                        req.method, req.query, req.status,
+                                        key, sid2, st[key], st2[key])))
+                    for sid2 in b:
+                        if sid2 not in a:
+                            out.append(V(
+                                'refusal-no-effect',
+                                '%s|refused-request-created-session|%s' % (
+                                    impl, shape),
+                                'refused request %s %r (%s) created session '
+                                '%s' % (req.method, req.query, req.status,
+                                        sid2)))
+            else:
+                ok = (200, 401) if note == 'open' else (200,)
+                if note == 'post' and req.status == 400:
+                    # the body may legitimately fail the request
+                    continue
+                if note == 'read' and req.status == 400 and \
+                        req.t_done - req.t_arrive > TICK:
+                    continue      # poll time-out
+                if req.status not in ok:
+                    out.append(V('admission-status',
+                                 '%s|refused-should-admit|%s|got=%s' % (
+                                     impl, shape, req.status),
+                                 '%s %r (headers %r), session state %r: '
+                                 'well-addressed request answered %s' % (
+                                     req.method, req.query, req.headers,
+                                     _st(req), req.status)))
+    return out
+
+
+def _st(req):
+    sid = getattr(req, 'target_sid', None)
+    q = _up.parse_qs(req.query)
+    sid = q['sid'][0] if 'sid' in q else None
+    st = (req.snap_arrive or {}).get(sid)
+    if sid is None:
+        return 'no sid'
+    if st is None:
+        return 'unknown sid'
+    return ('websocket' if st['upgraded'] else 'polling') + (
+        ',closed' if st['closed'] else '') + (
+        ',upgrading' if st['upgrading'] else '')
+
+
+def check_completion(h, f=None):
+    """C15: every non-upgrade request gets exactly one well-formed response
+    in bounded time; application calls return in bounded time."""
+    f = f or Facts(h)
+    out = []
+    impl = f.impl
+    bound_poll = f.I + f.T + 2 * TICK + f.handler_sleep
+    bound_fast = 2 * TICK + f.handler_sleep
+    for req in h.world.requests:
+        if req.kind != 'http' or req.seq_arrive is None:
+            continue
+        req.maxsize = h.world.server.max_http_buffer_size
+        shape = _req_shape(req)
+        if _half_ws_open(req) and (req.gw_errors or req.status is None):
+            out.append(V('well-formed-response',
+                         '%s|ws-open-without-connection-header' % impl,
+                         'GET %r with headers %r (transport=websocket, '
+                         'Upgrade but no "Connection: upgrade", so not an '
+                         'upgrade request): %s' % (
+                             req.query, req.headers,
+                             '; '.join(req.gw_errors) or 'no response')))
+            continue
+        if req.escaped:
+            exc = req.escaped.split(':')[0]
+            out.append(V('no-exception-escapes',
+                         '%s|exception-escaped|%s|%s' % (impl, exc, shape),
+                         '%s %r (body %r): %s left the application callable'
+                         % (req.method, req.query, _short(req.body),
+                            req.escaped)))
+            continue
+        for g in req.gw_errors[:1]:
+            out.append(V('well-formed-response',
+                         '%s|gateway-violation|%s' % (impl, g.split(' ')[0]),
+                         '%s %r: %s' % (req.method, req.query, g)))
+        if req.seq_done is None:
+            waited = f.end - req.t_arrive
+            is_poll = req.method == 'GET' and 'sid=' in req.query
+            if waited > (bound_poll if is_poll else bound_fast) + EPS:
+                blocked = [b for b in (h.final.get('blocked') or [])
+                           if b[0] == 'W%d' % req.rid]
+                where = blocked[0][1] if blocked else 'pending'
+                out.append(V('bounded-completion',
+                             '%s|request-never-completed|%s|%s' % (
+                                 impl, shape, where),
+                             '%s %r arrived at t=%.4f and was still '
+                             'unanswered at t=%.4f (worker: %s)' % (
+                                 req.method, req.query, req.t_arrive, f.end,
+                                 where)))
+            continue
+        dur = req.t_done - req.t_arrive
+        is_poll = req.method == 'GET' and 'sid=' in req.query
+        if req.method == 'POST' and req.status == 400 and \
+                'refused-body' in shape:
+            # the server drops the session and (close(wait=True)) lets a
+            # reader drain the queue first: bounded by the poll bound
+            is_poll = True
+        if dur > (bound_poll if is_poll else bound_fast) + EPS:
+            out.append(V('bounded-completion',
+                         '%s|request-too-slow|%s' % (impl, shape),
+                         '%s %r took %.4f virtual seconds (bound %.4f)' % (
+                             req.method, req.query, dur,
+                             bound_poll if is_poll else bound_fast)))
+        if req.status not in (200, 400, 401, 405) and \
+                req.path.startswith('/engine.io/'):
+            out.append(V('status-set', '%s|status-%s|%s' % (impl, req.status,
+                                                             shape),
+                         '%s %r answered %s' % (req.method, req.query,
+                                                req.status)))
+    for a in h.world.api_calls:
+        if a['seq_start'] is None:
+            continue
+        t1 = a['t_end'] if a['t_end'] is not None else f.end
+        if t1 - a['t_start'] > bound_poll + EPS:
+            b = a.get('before')
+            tr = 'no-session' if b is None else (
+                'websocket' if b['upgraded'] else 'polling')
+            what = a['name'] + ('(sid)' if 'sid' in a else '()')
+            if 'sid' not in a:
+                tr = 'all'
+            out.append(V('api-returns',
+                         '%s|api-call-blocked|%s|%s' % (impl, what, tr),
+                         'application call %s%s started at t=%.4f and %s '
+                         '(session: %s)' % (
+                             a['name'], a.get('args', ''), a['t_start'],
+                             'returned only at t=%.4f' % a['t_end']
+                             if a['t_end'] is not None else
+                             'had not returned at t=%.4f' % f.end, tr)))
+        if a.get('exc') and a['name'] in ('send', 'disconnect',
+                                          'send_packet'):
+            out.append(V('api-no-exception',
+                         '%s|api-call-raised|%s|%s' % (
+                             impl, a['name'], a['exc'].split(':')[0]),
+                         'application call %s%s raised %s' % (
+                             a['name'], a.get('args', ''), a['exc'])))
+    return out
+
+
+def _half_ws_open(req):
+    q = _up.parse_qs(req.query)
+    hd = {k.lower(): v.lower() for k, v in req.headers}
+    return req.method == 'GET' and 'sid' not in q and \
+        q.get('transport') == ['websocket'] and \
+        hd.get('upgrade') == 'websocket' and 'upgrade' not in [
+            x.strip() for x in hd.get('connection', '').split(',')]
+
+
+def _refused_body(req, limit=16, maxsize=10 ** 6):
+    """Does this POST body make the server drop the session (refused
+    packet type or declared length over the limit)?"""
+    declared = len(req.body) if req.declared is None else _int(req.declared)
+    if declared is None:
+        return False
+    if declared > maxsize:
+        return True
+    try:
+        pk = R.ref_payload_decode(req.body[:declared].decode('utf-8'), limit)
+    except (R.RefError, UnicodeDecodeError):
+        return False
+    for (pt, d, cert) in pk:
+        if pt == R.CLOSE:
+            return False
+        if pt in REFUSED_TYPES:
+            return True
+    return False
+
+
+def _req_shape(req):
+    q = _up.parse_qs(req.query)
+    kind = req.method
+    if req.method == 'POST' and _refused_body(
+            req, maxsize=getattr(req, 'maxsize', 10 ** 6)):
+        kind += '|refused-body'
+    if 'sid' in q:
+        st = (req.snap_arrive or {}).get(q['sid'][0])
+        if st is None:
+            kind += '|unknown-sid'
+        elif st['closed']:
+            kind += '|closed-sid'
+        else:
+            kind += '|live-sid'
+    else:
+        kind += '|no-sid'
+    return kind
